@@ -211,6 +211,14 @@ static void gen_case(struct iso_case *ic, int small)
 	/* small cases: 4-5 calls per context, all interleavings are enumerated */
 	gen_ctx_script(&ic->X, small ? vrng_range(1, 2) : vrng_range(1, 4), ic->rng, 0, small);
 	gen_ctx_script(&ic->Y, small ? vrng_range(1, 2) : vrng_range(1, 4), (unsigned)vrng_next(), !small, small);
+	/* often both contexts work on the same module (usually at different rates / formats) */
+	if (vrng_chance(40)) {
+		int tx = -1;
+		for (i = 0; i < ic->X.n; i++)
+			if (ic->X.op[i].kind == OP_LOAD || ic->X.op[i].kind == OP_LOADMEM) { tx = ic->X.op[i].a; break; }
+		for (i = 0; tx >= 0 && i < ic->Y.n; i++)
+			if (ic->Y.op[i].kind == OP_LOAD || ic->Y.op[i].kind == OP_LOADMEM) { ic->Y.op[i].a = tx; break; }
+	}
 	c06_gen_history(&ic->hist, vrng_range(2, 14), mods.n);
 	/* the reused context keeps the default persistent settings */
 	for (i = 0; i < ic->hist.n; i++) {
